@@ -39,6 +39,8 @@ func main() {
 			}
 			bs = append(bs, vh.Batch{Name: "fault", TimeoutS: 1500})
 			bs = append(bs, vh.Batch{Name: "tcp", TimeoutS: 1500})
+			bs = append(bs, vh.Batch{Name: "burst", TimeoutS: 1500})
+			bs = append(bs, vh.Batch{Name: "down", TimeoutS: 1500})
 			for i := 0; i < clientBatches; i++ {
 				bs = append(bs, vh.Batch{Name: fmt.Sprintf("client-%d", i), TimeoutS: 1500})
 			}
@@ -64,6 +66,10 @@ func run(r *vh.Run, batch string) {
 		runTruncBatch(r, 0, true)
 	case batch == "fault":
 		runFaultBatch(r)
+	case batch == "burst":
+		runBurstBatch(r)
+	case batch == "down":
+		runDownBatch(r)
 	case strings.HasPrefix(batch, "client-"):
 		var child int
 		fmt.Sscanf(batch, "client-%d", &child)
@@ -85,6 +91,14 @@ func replay(r *vh.Run, raw json.RawMessage) {
 		var c faultCase
 		json.Unmarshal(raw, &c)
 		runFaultCase(r, c)
+	case "burst":
+		var c burstCase
+		json.Unmarshal(raw, &c)
+		runBurstCase(r, c)
+	case "down":
+		var c downCase
+		json.Unmarshal(raw, &c)
+		runDownCase(r, c)
 	case "client":
 		var c clientCase
 		json.Unmarshal(raw, &c)
